@@ -658,6 +658,64 @@ def replay_interleaved(r):
     return [] if ta == tref else ['equations differ between interleaved and stand-alone construction']
 
 
+class _MemLog(object):
+    def __init__(self):
+        self.parts = []
+
+    def write(self, t):
+        self.parts.append(t)
+
+    def close(self):
+        pass
+
+
+def steady_oracle(rng, n):
+    """Implementation only: with the initial steady-state search switched on, a second solve of the same
+    solver and a solve with the 'steadystate_0' / 'log' logs registered give the same series (main and
+    'initial' group) as a plain first solve."""
+    from sfc_models.equation_solver import EquationSolver
+    from sfc_models.utils import Logger
+    fails, count = [], 0
+
+    def hexes(ts):
+        return sorted((k, [float(x).hex() for x in v]) for k, v in ts.items())
+    for _ in range(n):
+        a = round(rng.uniform(0.2, 0.8), 2)
+        g = round(rng.uniform(5, 30), 1)
+        block = 'x = %s*LAG_x + G\nLAG_x = x(k-1)\ny = 2*x + 1\nexogenous\nG = [%s]*40\nMaxTime = %d' % (a, g, rng.choice([3, 5]))
+
+        def solve(logs):
+            Logger.cleanup()
+            if logs:
+                Logger.register_log(_MemLog(), 'steadystate_0')
+                Logger.register_log(_MemLog(), 'log')
+            s = EquationSolver(block)
+            s.ParameterSolveInitialSteadyState = True
+            s.ParameterInitialSteadyStateMaxTime = 60
+            s.SolveEquation()
+            first = (hexes(s.TimeSeries), hexes(s.TimeSeriesInitialSteadyState))
+            s.SolveEquation()
+            second = (hexes(s.TimeSeries), hexes(s.TimeSeriesInitialSteadyState))
+            Logger.cleanup()
+            return first, second
+        try:
+            plain1, plain2 = solve(False)
+            logged1, logged2 = solve(True)
+        except Exception as e:  # noqa
+            fails.append({'key': 'resolve:series-differ', 'what': 'steady-state solve raised %r on %r' % (e, block),
+                          'replay': {'kind': 'steady', 'block': block}})
+            continue
+        count += 1
+        if plain1[0] != plain2[0]:
+            fails.append({'key': 'resolve:series-differ', 'what': 'second solve with the steady-state search on differs from the first (%r)' % block,
+                          'replay': {'kind': 'steady', 'block': block}})
+        if plain1 != logged1:
+            which = 'main series' if plain1[0] != logged1[0] else "'initial' series"
+            fails.append({'key': 'logging:series-differ', 'what': '%s differ when the steadystate_0/log logs are registered (%r)' % (which, block),
+                          'replay': {'kind': 'steady', 'block': block}})
+    return fails, count
+
+
 def run(ctx):
     out = common.Outcome()
     out.proof = common.proof_status(FAMILY, PROPFILE)
@@ -729,6 +787,9 @@ def run(ctx):
     stats['fresh_references'] = len(_fresh_cache)
     ifails, icount = interleaved_oracle(ctx.rng, ctx.scale(40, 600))
     out.failures.extend(ifails)
+    sfails, scount = steady_oracle(ctx.rng, ctx.scale(15, 200))
+    out.failures.extend(sfails)
+    stats['steady_state_resolve_and_logging'] = scount
     stats['interleaved_constructions'] = icount
     out.evaluations = len(cases) + len(scens) + icount
     out.nontrivial = len(seen)
@@ -771,6 +832,34 @@ def replay(path):
         h = r['history']
         prefetch(needed_keys(h))
         fails = history_oracle(h, run_history_impl(h))
+    elif r.get('kind') == 'steady':
+        import random as _r
+        blk = r['block']
+
+        class _One(object):
+            def randrange(self, n): return 0
+        # re-run the three comparisons on exactly this block
+        from sfc_models.equation_solver import EquationSolver
+        from sfc_models.utils import Logger
+
+        def hx(ts):
+            return sorted((k, [float(x).hex() for x in v]) for k, v in ts.items())
+
+        def sol(logs):
+            Logger.cleanup()
+            if logs:
+                Logger.register_log(_MemLog(), 'steadystate_0'); Logger.register_log(_MemLog(), 'log')
+            s_ = EquationSolver(blk); s_.ParameterSolveInitialSteadyState = True; s_.ParameterInitialSteadyStateMaxTime = 60
+            s_.SolveEquation(); f1 = (hx(s_.TimeSeries), hx(s_.TimeSeriesInitialSteadyState))
+            s_.SolveEquation(); f2 = (hx(s_.TimeSeries), hx(s_.TimeSeriesInitialSteadyState))
+            Logger.cleanup()
+            return f1, f2
+        p1, p2 = sol(False); l1, l2 = sol(True)
+        fails = []
+        if p1[0] != p2[0]:
+            fails.append({'key': 'resolve:series-differ', 'what': 'second solve differs'})
+        if p1 != l1:
+            fails.append({'key': 'logging:series-differ', 'what': 'series differ with logs registered'})
     elif r.get('kind') == 'interleaved':
         fails = [{'key': 'history:interleaved-construction', 'what': w} for w in replay_interleaved(r)]
     else:
@@ -779,4 +868,4 @@ def replay(path):
     for f in fails:
         print('FAILS:', f['key'], f['what'][:500])
     print('replay: %s' % ('property violated' if fails else 'property holds on this input'))
-    return 1 if fails else 0
+    return common.replay_status(PID, fails)
